@@ -34,7 +34,7 @@ man = {
     "engines": [
         {"name": "hypothesis", "path": "mv/runner.py", "serves_properties": [p for p in ids if p in CHECKS],
          "kind_free_text": "Hypothesis 6.168 strategies / RuleBasedStateMachine sharded over 16 seeded workers, plus multiprocessing enumeration of finite domains; explicit oracles per property in props/"},
-        {"name": "atheris", "path": "tools/fuzz_child.py", "serves_properties": ["C10", "C12", "C13", "C15", "C16", "C17", "C19"],
+        {"name": "atheris", "path": "tools/fuzz_child.py", "serves_properties": ["C10", "C11", "C12", "C13", "C14", "C15", "C16", "C17", "C19"],
          "kind_free_text": "thorough tier only: atheris 3.1 (libFuzzer) instruments the mofun package and drives Hypothesis' fuzz_one_input of an existing part (same strategy, same oracle) under coverage feedback; 16 processes x 5000 executions with seeds derived from VERIF_SEED"},
     ],
     "checks": checks,
